@@ -670,7 +670,13 @@ func runFrame(fr *frame) {
 					fmt.Fprintln(os.Stderr, "\t", instr)
 				}
 			}
-			if visitInstr(fr, instr) == kReturn {
+			var k continuation
+			if fr.lenientTop {
+				k = lenientInstr(fr, instr)
+			} else {
+				k = visitInstr(fr, instr)
+			}
+			if k == kReturn {
 				return
 			}
 			// Inv: kNext (continue) or kJump (last instr)
